@@ -110,7 +110,7 @@ CLAIMED = {
              'Δ(self.end) equals the net length change of the splices, start is fixed, every splice lies inside [start, end] (so scheme/authority before and query/fragment after are never touched), '
              'holes are tiled exactly, no usize subtraction underflows (pop\'s backward loop keeps its index in the window) — an inductive invariant, hence it holds over any sequence of edits through one handle. '
              'Handle wiring (find_path window; follows_authority = find_authority(&buffer[..start], 0), the prefix before the path), what Deref hands out is exactly buffer[start..end], composites without own splices, the tail rule of the two public symbolic_push wrappers, family twins. Language level (Engine D3, virtual cut markers for positions '
-             'inside the path): after push / pop / clear the decomposition of the enclosing buffer is "path = edited window, every other component unchanged" and an absolute path stays absolute, a relative one relative. Text-level list semantics: on every symbolic path the splice of push / pop / clear is one of the shapes of a fixed table (push: the segment — behind "/" when the path is non-empty, behind a "./" shield where documented — is written at the END of the path; pop: everything from the "/" its backward search stopped at, or the whole content of a single-segment path, is removed, or ".." is appended in the documented cases; clear: the content after a leading "/" is removed), and the search of pop starts at the last byte and only moves down (so that "/" is the last one). Directory meaning: symbolic_push is executed abstractly over ALL segment strings (Engine S) with an opaque handle: "." calls nothing and returns true, ".." calls pop once and returns true, any other segment is pushed once, unchanged, and returns false; symbolic_append hands every item of its argument, in order, to symbolic_push and then pushes the EMPTY segment exactly when the last flag was true and the path is not empty.',
+             'inside the path): after push / pop / clear the decomposition of the enclosing buffer is "path = edited window, every other component unchanged" and an absolute path stays absolute, a relative one relative. Text-level list semantics: on every symbolic path the splice of push / pop / clear is one of the shapes of a fixed table (push: the segment — behind "/" when the path is non-empty, behind a "./" shield where documented — is written at the END of the path; pop: everything from the "/" its backward search stopped at, or the whole content of a single-segment path, is removed, or ".." is appended in the documented cases; clear: the content after a leading "/" is removed), and the search of pop starts at the last byte and only moves down (so that "/" is the last one); each shape of pop is taken only in the case the list operation prescribes it for — the language of path texts on a symbolic path (its tests on the text: is_empty, is_absolute, last segment == the promoted constant "..", suffix tests; regular predicates) is included in: "" for the appended "..", last segment ".." for the appended "/..", non-empty with another last segment for a removal, "/" for no change. Directory meaning: symbolic_push is executed abstractly over ALL segment strings (Engine S) with an opaque handle: "." calls nothing and returns true, ".." calls pop once and returns true, any other segment is pushed once, unchanged, and returns false; symbolic_append hands every item of its argument, in order, to symbolic_push and then pushes the EMPTY segment exactly when the last flag was true and the path is not empty.',
         design_ref='DESIGN.md §3 Engine D (D1–D4), §4 C10, §10.14',
         note='NOT decided: the decoded segment sequence after a history of edits (obtained by composing the per-operation facts with C12: an argument in DESIGN.md §10.14, not a check). Genuine defects F9 (push of an empty segment after a trailing "./" underflowed) and F10 (push/pop on the empty path after an authority '
              'appended to the authority) were found by these rules and repaired by fix: commits. Old note: F9 (push of an empty segment after a trailing "./" underflowed the end offset: panic in debug builds) '
@@ -138,7 +138,7 @@ CLAIMED = {
              'absolute and relative paths): it returns the segment starting at the nearest start below the offset, None at the first; no out-of-bounds index, termination; '
              '(wiring, MIR shape rules on every CFG path) segments() = Empty iff is_empty() else NonEmpty{self, first_segment_offset(), len+1}; next()/next_back() return None without touching a cursor, or — only under '
              'offset < back_offset — apply the step to (path, own cursor), store the returned offset into that cursor only and return the returned segment; is_absolute() and is_empty() are decided as predicates over all byte strings by Engine S (true exactly on texts starting with "/" resp. on "" and "/"), first_segment_offset is 1 iff is_absolute(); '
-             'first(), last(), file_name(), segment_count() are the corresponding steps; parent() is executed abstractly in mirror mode against spec/segments.abnf parent-text (None for "", "/" and a single relative segment, the root for "/x", "/./" for "//x", otherwise the text before the LAST "/"), parent_or_empty() = parent() or the empty path of the same kind (Engine S with parent() and the kind answering every way). The induction over interleavings (DESIGN.md §10.7) is a short pen-and-paper argument over these mechanically checked facts.',
+             'first(), last(), file_name(), segment_count() are the corresponding steps; parent() is executed abstractly in mirror mode against spec/segments.abnf parent-text (None for "", "/" and a single relative segment, the root for "/x", "/./" for "//x", otherwise the text before the LAST "/"), parent_or_empty() = parent() or the empty path of the same kind (Engine S with parent() and the kind answering every way). The induction over interleavings (DESIGN.md §10.7) is a short pen-and-paper argument over these mechanically checked facts. directory() is decided by the rules of C16, run here as well: every symbolic path returns self (empty path), the relative EMPTY constant, or a prefix that ends with the LAST "/".',
         design_ref='DESIGN.md §10.7',
         note='The length reported by the normalised-segment iterator: its three layers forward next / next_back / size_hint unchanged to the smallvec::IntoIter that holds C09\'s sequence and override nothing else (rule), whose ExactSizeIterator contract is trusted. NOT decided: the mechanisation of the induction step itself. '
              'Trusted: Engine S summaries of slice indexing/len; C01 (no "?"/"#" inside a valid path).',
@@ -150,7 +150,7 @@ CLAIMED = {
         text='Exact language inclusions on the compiled automata: every URI-family type ⊆ its IRI twin, full ⊆ reference types, URI family ⊆ ASCII '
              '(the obligation behind each unchecked re-wrap, enumerated from MIR); guard equality L(X-ref) ∩ has-scheme = L(X) in both directions '
              '("exactly when"); every conversion function between the eight RI types is classified (unchecked+inclusion / guarded / checked downcast '
-             'on the text of self with the original handed back / forwarder); conversion EXACTNESS: for each of the 61 functions of one RI-typed argument yielding another RI type (inherent, TryFrom, From, AsRef, Borrow — whatever the Self of the impl) the regular language of texts on which it yields a value, computed from its MIR terms and site guards, equals L(source) ∩ L(target) and the yielded type is the declared one; URI and IRI twins have equal MIR summaries (595 pairs), including which argument each call is applied to.',
+             'on the text of self with the original handed back / forwarder); conversion EXACTNESS: for each of the 61 functions of one RI-typed argument yielding another RI type (inherent, TryFrom, From, AsRef, Borrow — whatever the Self of the impl) the regular language of texts on which it yields a value, computed from its MIR terms and site guards, equals L(source) ∩ L(target) and the yielded type is the declared one; URI and IRI twins have equal MIR summaries (595 pairs), including which argument each call is applied to. A dominating test f(x).is_some() / is_ok() / is_none() / is_err() with f an own one-argument conversion is the predicate "f yields a value on this text", with the language computed for f.',
         design_ref='DESIGN.md §4 C13, Engine A, C-sites, C-sibling, §10.16',
         note='Decides acceptance, text preservation and family agreement of the conversions. "Identical comparison/hashing/resolution/editing '
              'results in both families" is decided structurally (same generic common::* code, equal summaries of the duplicated code), not by evaluating results. '
@@ -178,8 +178,8 @@ CLAIMED = {
              'every later call on self is a frame-preserving mutator (C05/C09 frame keeps the scheme) and no set_scheme(None) is reachable, so the unchecked re-typing of the result as Uri/Iri '
              'is justified (with C13: reference ∩ has-scheme = full, and C04: mutators preserve validity); ordering: on every CFG path all calls that change which of scheme/authority is present precede every write of the path (the disambiguating shield is decided in the final context); '
              'RFC 3986 5.2.2 case analysis: every CFG path is walked with a path-sensitive evaluation of its guards, the treatment of the path (keep the base path / normalise the own path / merge) is read off its calls, and the language of reference paths '
-             'reaching each treatment is compared by automata equality with the RFC table (keep iff path = "", own iff it starts with "/", merge otherwise; own when the reference has a scheme or authority); merge sub-rule (RFC 3986 5.2.3) on every merging CFG path, with terms restricted to the definitions of that path: the merge buffer starts from "/" only where the base is established to have an authority AND an empty path, from parent_or_empty() of the base path only where that case is excluded; exactly the segments() of the reference path are appended to THAT buffer with symbolic_append — whose dispatch ("." nothing, ".." pop, other push) and loop / tail rule are run here as under C10 — and its path becomes the result path; the base is only read; URI and IRI twins agree.',
-        design_ref='DESIGN.md §4 C06, §10.9, §10.15',
+             'reaching each treatment is compared by automata equality with the RFC table (keep iff path = "", own iff it starts with "/", merge otherwise; own when the reference has a scheme or authority); merge sub-rule (RFC 3986 5.2.3) on every merging CFG path, with terms restricted to the definitions of that path: the merge buffer starts from "/" only where the base is established to have an authority AND an empty path, from parent_or_empty() of the base path only where that case is excluded; exactly the segments() of the reference path are appended to THAT buffer with symbolic_append — whose dispatch ("." nothing, ".." pop, other push) and loop / tail rule are run here as under C10 — and its path becomes the result path; the base is only read; URI and IRI twins agree. Ambiguity clause: every non-merge branch ends with path_mut().normalize(), and the marked-language closure of that in-place rewrite (Engine D3, the rule of C09) is run here over the two reference owners — in every context (scheme / authority present or not) the rewritten path is read back as the path and as nothing else.',
+        design_ref='DESIGN.md §4 C06, §10.9, §10.15, §10.24',
         note='NOT decided: that the text written on each path equals the RFC 3986 §5.2.2 result (merge + remove_dot_segments over run-time segment lists), nor idempotence; those quantify over run-time values.',
         technique='instance-graph reachability + CFG path enumeration (typestate) + sibling agreement (static analysis)',
         engine='C',
@@ -192,7 +192,7 @@ CLAIMED = {
              '(4) the six typed base() wrappers re-wrap exactly that slice. suffix(), the "only when" half: (5) RiRefImpl::suffix reaches PathImpl::suffix (its only source of Some) only on CFG paths on which the two scheme options AND the two '
              'authority options compared equal (path-sensitive evaluation of the guards), applies it to (value path, prefix path) and accompanies the result with the value\'s own query and fragment; (6) PathImpl::suffix reaches the comparison of the segments exactly when the two paths are of the same kind (abstract execution per kind combination, every other test taken both ways) '
              'and then consumes the two normalised-segment iterators in lockstep: one iteration of its loop, on every CFG path, does exactly — (Some, Some, equal) go on; (Some, Some, different) or (None, Some) return None; '
-             '(Some, None) push that value segment and go on; (None, None) return Some(buffer).',
+             '(Some, None) push that value segment and go on; (None, None) return Some(buffer); and the test that decides "equal" is the equality of segments — Iterator::eq of as_pct_str().bytes() on both segments, or Segment == on the segments themselves, also through a private helper — not a comparison of their raw text.',
         design_ref='DESIGN.md §4 C16, §10.11, §10.12',
         note='NOT decided: that the normalised segments themselves are right (C09\'s undecided sequence) and the reconstruction law as an equality of values; relies on C02 for find_path and on smallvec::IntoIter staying exhausted.',
         technique='automata inclusion lemma + scanner MIR x reversed specification automaton + path-sensitive guard evaluation over all CFG paths / one loop iteration (static analysis)',
@@ -229,7 +229,7 @@ CLAIMED = {
         text='The property is regular and is decided exactly by automata inclusion for all values: for each of the 10 percent-decodable component types '
              '(17 PctStr/PctString::new_unchecked sites found in MIR) L(T) ⊆ TRIPLETS, ⊆ TOTAL (utf8-decode accepts the decoded octets: no panic in '
              'chars/len/decode/eq/cmp/hash) and L(T)∩TOTAL ⊆ STRICT (no ill-formed/overlong sequence is given a text); plus discharge of every panic entry reachable '
-             'from the components\' eq/cmp/hash in the instance graph. On the pinned tree TOTAL and FAITHFUL FAIL for all 10 types (genuine defect F7, '
+             'from the components\' eq/cmp/hash in the instance graph; own-text view rule: each of the 18 functions of one argument that yield a PctStr / PctString yields, on every path, the wrapped text of that argument (directly or through another such function). On the pinned tree TOTAL and FAITHFUL FAIL for all 10 types (genuine defect F7, '
              'witnesses %80 and %C0%80): recorded as known findings, so the level is "other" rather than "proof".',
         design_ref='DESIGN.md §4 C19, §1.1 F7, §8',
         note='Trusted: hand models of pct-str 2.0.0 / utf8-decode 1.0.1 (iv/pct.py), DFA_T (C01). Decoding to "exactly the component\'s bytes with %XX replaced" is the model\'s definition, not re-derived from pct-str\'s MIR.',
